@@ -497,12 +497,9 @@ func c13Run(c *Ctx) {
 			[]string{"NewMapXmlReader", "NewMapXmlReaderRaw", "HandleXmlReader", "HandleXmlReaderRaw", "x2j-wrapper.ToMap", "x2j-wrapper.XmlMsgsFromReader"})
 		kept := cases[:n0]
 		for _, k := range cases[n0:] {
-			// a caller's own io.ByteReader is handed to xml.NewDecoder as it is (encoding/xml: "If r does not implement
-			// io.ByteReader, NewDecoder will do its own buffering") and from there to the CharsetReader, which mxj
-			// cannot keep from reading ahead; the Raw forms wrap every reader and are checked for both kinds
-			if k.ByteRd && len(k.Docs) > 1 && !strings.Contains(k.Fn, "Raw") {
-				continue
-			}
+			// (a caller's own io.ByteReader included: until the third bug-hunt round those cases were left out for the
+			// non-Raw forms with the argument that encoding/xml hands such a reader to the CharsetReader as it is - but
+			// NewMapXmlReader wraps readers precisely so that nothing beyond the document is consumed, and it can wrap these too)
 			k.Latin1 = true
 			kept = append(kept, k)
 		}
